@@ -1,6 +1,6 @@
 import Octo.Lemmas.Wire
 import Octo.Lemmas.Repopulate
-import Octo.Model.WireJson
+import Octo.Lemmas.WireJson
 import Octo.Lemmas.ValueOrder
 /-!
 # C26 — The plugin protocol carries data and predicates without change
@@ -107,11 +107,6 @@ theorem type_roundtrip (t : Ty) : tripTy t = some t := tripTy_eq t
 
 /-! ## 4. Schema, record, metadata message, variable contexts -/
 
-theorem encodeFields_ofTys (ns : List Name) (ts : List Ty) : encodeFields ⟨ns, ofTys ts⟩ = some ⟨ns, ofTys ts⟩ := by
-  simp [encodeFields, encode_ofTys]
-theorem decodeFields_ofTys (ns : List Name) (ts : List Ty) : decodeFields ⟨ns, ofTys ts⟩ = some ⟨ns, ofTys ts⟩ := by
-  simp [decodeFields, decode_ofTys]
-
 /-- `NativeSchemaToProto` / `ToNativeSchema`: field names, field types, time field index and the
     NoRetractions flag all survive (the index travels as int32) -/
 theorem schema_roundtrip (ns : List Name) (ts : List Ty) (tf : Int) (nr : Bool) (h : inInt32 tf) :
@@ -138,22 +133,6 @@ theorem metadata_roundtrip (ty wm : Int) (loc : Nat) (h : inInt32 ty) :
   have hw : wrap32 ty = ty := by unfold inInt32 at h; unfold wrap32; omega
   simp only [encodeMeta, tsNew, Option.map, decodeMeta, hw, tsAsTime_tsNew]
 
-theorem decodePhysCtxRev_ok : ∀ (fs out : List (Fields RT)), (∀ f ∈ fs, decodeFields f = some f) →
-    decodePhysCtxRev fs out = some (fs.reverse ++ out)
-  | [], out, _ => by simp [decodePhysCtxRev]
-  | f :: fs, out, h => by
-    simp only [decodePhysCtxRev, h f (by simp)]
-    rw [decodePhysCtxRev_ok fs (f :: out) (fun g hg => h g (List.mem_cons_of_mem _ hg))]
-    simp
-
-theorem encodePhysCtx_ok : ∀ (fs : List (Fields RT)), (∀ f ∈ fs, encodeFields f = some f) → encodePhysCtx fs = some fs
-  | [], _ => by simp [encodePhysCtx]
-  | f :: fs, h => by
-    simp [encodePhysCtx, h f (by simp), encodePhysCtx_ok fs (fun g hg => h g (List.mem_cons_of_mem _ hg))]
-
-/-- the frames of a physical variable context as the Go structs hold them -/
-def physFrames (frames : List (List Name × List Ty)) : List (Fields RT) := frames.map fun f => ⟨f.1, ofTys f.2⟩
-
 /-- `NativePhysicalVariableContextToProto` / `ToNativePhysicalVariableContext`: the chain of frames comes back
     in the same order (the decoder walks the frame list backwards and prepends), any length, nil included -/
 theorem physCtx_roundtrip (frames : List (List Name × List Ty)) :
@@ -169,30 +148,6 @@ theorem physCtx_roundtrip (frames : List (List Name × List Ty)) :
     obtain ⟨p, _, rfl⟩ := hf
     exact decodeFields_ofTys p.1 p.2
   simp [encodePhysCtx_ok _ he, decodePhysCtx, decodePhysCtxRev_ok _ [] hd]
-
-def framesDursOk : List (List Value) → Prop
-  | [] => True
-  | f :: fs => dursOk f ∧ framesDursOk fs
-
-theorem encodeExecCtx_ok : ∀ (fs : List (List Value)), encodeExecCtx (fs.map ofValues) = some (fs.map encPs)
-  | [] => by simp [encodeExecCtx]
-  | f :: fs => by simp [encodeExecCtx, encode_ofValues f, encodeExecCtx_ok fs]
-
-theorem decodeExecCtxRev_ok : ∀ (fs : List (List Value)) (out : List (List GV)), (∀ f ∈ fs, dursOk f) →
-    decodeExecCtxRev (fs.map encPs) out = some ((fs.map fun f => ofValues (normLocs f)).reverse ++ out)
-  | [], out, _ => by simp [decodeExecCtxRev]
-  | f :: fs, out, h => by
-    simp only [List.map_cons, decodeExecCtxRev, decode_encPs f (h f (by simp))]
-    rw [decodeExecCtxRev_ok fs _ (fun g hg => h g (List.mem_cons_of_mem _ hg))]
-    simp
-
-theorem framesDursOk_mem : ∀ (fs : List (List Value)), framesDursOk fs → ∀ f ∈ fs, dursOk f
-  | [], _, f, hf => by simp at hf
-  | g :: fs, h, f, hf => by
-    simp only [framesDursOk] at h
-    rcases List.mem_cons.mp hf with rfl | hf
-    · exact h.1
-    · exact framesDursOk_mem fs h.2 f hf
 
 /-- `NativeExecutionVariableContextToProto` / `ToNativeExecutionVariableContext`: the chain of value frames comes
     back in the same order with the same values -/
@@ -211,17 +166,11 @@ theorem execCtx_roundtrip (frames : List (List Value)) (h : framesDursOk frames)
     among `TypeFn` descriptors, and those exclude one another by the TypeID they demand of an argument -/
 theorem fn_table_ok : Gen.WireFunctions.table.all (fun e => pairwiseOk e.descs) = true := by decide
 
-theorem table_pairwise (name : List Nat) (ds : List FnDesc) (h : lookupFn Gen.WireFunctions.table name = some ds) :
-    pairwiseOk ds = true := by
-  simp only [lookupFn, Option.map_eq_some_iff] at h
-  obtain ⟨e, he, rfl⟩ := h
-  exact List.all_eq_true.mp fn_table_ok e (List.mem_of_find?_eq_some he)
-
 /-- **repopulate_exact**: for every function of `FunctionMap()` and all argument types, a call that the typechecker
     resolves in its exact pass to descriptor `i` is given descriptor `i` again by the plugin after the JSON trip -/
 theorem repopulate_exact (name : List Nat) (ds : List FnDesc) (hn : lookupFn Gen.WireFunctions.table name = some ds)
     (argTys : List Ty) (i : Nat) (h : exactPassFrom argTys 0 ds none = .found i) : transportPick ds argTys i = .found i :=
-  transport_exact ds (table_pairwise name ds hn) argTys i h
+  transport_exact ds (table_pairwise fn_table_ok name ds hn) argTys i h
 
 /-- **repopulate_safe**: whatever descriptor the typechecker attached (second, "may fit" pass included), the plugin
     either finds the same one or rejects the predicate (which then is evaluated by octosql itself) — it never
@@ -229,30 +178,22 @@ theorem repopulate_exact (name : List Nat) (ds : List FnDesc) (hn : lookupFn Gen
 theorem repopulate_safe (name : List Nat) (ds : List FnDesc) (hn : lookupFn Gen.WireFunctions.table name = some ds)
     (argTys : List Ty) (i : Nat) (h : typecheckPick ds argTys = .found i) :
     transportPick ds argTys i = .found i ∨ transportPick ds argTys i = .notFound :=
-  transport_safe ds (table_pairwise name ds hn) argTys i h
+  transport_safe ds (table_pairwise fn_table_ok name ds hn) argTys i h
+
+/-- **a whole predicate** (any nesting of calls under AND / OR / tuples / type assertions / casts / COALESCE): if every
+    call was resolved by the typechecker's exact pass, the predicate that `RepopulatePhysicalExpressionFunctions`
+    returns after the JSON trip is the predicate that was sent — every call has its function back — and it is accepted -/
+theorem predicate_roundtrip (e : PExpr) (h : exactTyped Gen.WireFunctions.table e) :
+    repopTree Gen.WireFunctions.table (stripFns e) = some (e, true) :=
+  repopTree_exact fn_table_ok e h
+
+/-- for any predicate the typechecker produced: the repopulation does not panic, and if the plugin accepts the
+    predicate it holds exactly the functions that were sent (otherwise the predicate is rejected and octosql keeps it) -/
+theorem predicate_never_misrouted (e : PExpr) (h : typechecked Gen.WireFunctions.table e) :
+    ∃ e' ok, repopTree Gen.WireFunctions.table (stripFns e) = some (e', ok) ∧ (ok = true → e' = e) :=
+  repopTree_safe fn_table_ok e h
 
 /-! ## 6. Constants of a predicate through `encoding/json` (library behaviour, as modelled in `WireJson`) -/
-
-mutual
-theorem json_value_ok : ∀ v, jsonSafe v = true → jsonValue v = .ok (normLoc v)
-  | .null, _ => by rfl
-  | .int _, _ => by rfl
-  | .bool _, _ => by rfl
-  | .dur _, _ => by rfl
-  | .float f, h => by simp only [jsonSafe] at h; simp [jsonValue, h, normLoc]
-  | .str s, h => by
-    simp only [jsonSafe, Utf8.validUtf8, beq_iff_eq] at h
-    simp [jsonValue, jsonStr, h, normLoc]
-  | .time ns loc, h => by simp only [jsonSafe] at h; simp [jsonValue, h, normLoc]
-  | .list xs, h => by simp only [jsonSafe] at h; simp [jsonValue, json_values_ok xs h, normLoc]
-  | .struct xs, h => by simp only [jsonSafe] at h; simp [jsonValue, json_values_ok xs h, normLoc]
-  | .tuple xs, h => by simp only [jsonSafe] at h; simp [jsonValue, json_values_ok xs h, normLoc]
-theorem json_values_ok : ∀ xs, jsonSafes xs = true → jsonValues xs = .ok (normLocs xs)
-  | [], _ => by rfl
-  | x :: xs, h => by
-    simp only [jsonSafes, Bool.and_eq_true] at h
-    simp [jsonValues, json_value_ok x h.1, json_values_ok xs h.2, normLocs]
-end
 
 /-- a constant made of finite floats, UTF-8 strings and times with a four-digit year reaches the plugin unchanged -/
 theorem json_constant_roundtrip (v : Value) (h : jsonSafe v = true) : jsonValue v = .ok (normLoc v) := json_value_ok v h
@@ -381,5 +322,20 @@ example : (lookupFn Gen.WireFunctions.table [108, 101, 110]).map (fun ds =>
 /-- a call the typechecker lets through in its second pass (`len()`, no arguments) is rejected, not misrouted -/
 example : (lookupFn Gen.WireFunctions.table [108, 101, 110]).map (fun ds => (typecheckPick ds [], transportPick ds [] 1))
     = some (.found 1, .notFound) := by decide
+
+/-- `c IN (1, 2) AND len(t) = 2` with `t` a tuple: three calls, TypeFn overloads 1 (`in`, tuple) and 3 (`len`, tuple) among
+    them; after the trip every call has its own descriptor again -/
+def sampleTree : PExpr :=
+  .node .bool [
+    .call .bool [105, 110] ⟨[], .null, true⟩ (some 1) [.leaf .int, .node (.tuple [.int, .int]) [.leaf .int, .leaf .int]],
+    .call .bool [61] ⟨[.any, .any], .bool, true⟩ (some 0)
+      [.call .int [108, 101, 110] ⟨[], .null, true⟩ (some 3) [.leaf (.tuple [.int, .int])], .leaf .int]]
+example : (repopTree Gen.WireFunctions.table (stripFns sampleTree)).map (fun p => (fnsOf p.1, p.2))
+    = some ([some 1, some 0, some 3], true) := by decide
+example : fnsOf (stripFns sampleTree) = [none, none, none] := by decide
+/-- … and it satisfies the hypothesis of `predicate_roundtrip` -/
+example : exactTyped Gen.WireFunctions.table sampleTree := by
+  simp only [sampleTree, exactTyped, exactTypedL, and_true, true_and]
+  exact ⟨⟨_, 1, _, rfl, by decide, rfl, rfl, rfl⟩, ⟨_, 3, _, rfl, by decide, rfl, rfl, rfl⟩, _, 0, _, rfl, by decide, rfl, rfl, rfl⟩
 
 end Octo.C26
